@@ -139,6 +139,17 @@ CLAIMED = {
             "the same fit re-run under permuted task orders.",
             "cells are read from the fitted binner; task orders are forced at task granularity (joblib's Parallel in the "
             "module namespace is replaced), not OS thread interleavings."),
+    "C01": ("DESIGN 4/C01",
+            "TLA+ spec Lifecycle (parameter store, set_params / clone as actions; negative run for a store that is replaced) "
+            "+ LifecycleTrace: histories of new / set_params / clone / cross-feed / fit / predict on every exported class "
+            "validated event by event against the predicted get_params view",
+            "The trace specification keeps, per object, the canonical deep parameter view and predicts it after every "
+            "set_params (exactly the given keys, an estimator-valued key replacing its subtree), clone (equal view, "
+            "unfitted) and cross-feed (the receiver reports the donor's view); 'behaves identically' is decided by the "
+            "specification's output memo after fitting all instances on the same data. One history per class of the "
+            "table in harness/classes.py (nested, indexed incl. index >= 10, prefixed, estimator-valued, string keys).",
+            "valid configurations = the table of alternatives; values compared as canonical tokens; QuantileMLPRegressor "
+            "is not constructible here (version drift)."),
 }
 
 PENDING_REASON = "check not built yet in this round (planned: see DESIGN.md section 4); not claimed until it runs"
